@@ -93,7 +93,8 @@ CONSTANTS
   MidEnv,         \* TRUE: the environment also acts in the middle of a reconcile
   GuardInactive,  \* TRUE = as written: Pre / Post do nothing for an Inactive revision
   GuardHealth,    \* TRUE = as written: Post fails unless the Deployment is Available
-  OwnDelete       \* FALSE = as written: Deactivate deletes by name; TRUE = only what the revision controls
+  OwnDelete,      \* FALSE = as written: Deactivate deletes by name; TRUE = only what the revision controls
+  CacheMiss       \* TRUE: a read of Apply may be answered NotFound although the object exists (informer cache lag)
 
 Revs == {"r1", "r2"}
 Other(r) == IF r = "r1" THEN "r2" ELSE "r1"
@@ -218,11 +219,15 @@ Env == Flip \/ EditDn \/ EditSan \/ EditExt \/ Avail \/ Grab \/ FCreate \/ Vanis
 (* refused: NotFound, AlreadyExists, Invalid, Conflict), "error" (an error *)
 (* value, no effect), "fail" (a Conflict, no effect; writes only),         *)
 (* "crashBefore" (no effect, the process is gone), "crashAfter" (effect,   *)
-(* the process is gone; writes only).  A nested reconcile is fault free.   *)
+(* the process is gone; writes only), "miss" (a cached read that does not   *)
+(* see the object yet).  A nested reconcile is fault free.                 *)
 
 PostPcs == {"sa.g0", "sa.g", "sa.w", "dep.g", "dep.w"}
-Outs(w) == IF Nested \/ faults >= MaxFaults THEN {"ok"}
-           ELSE IF w THEN {"ok", "error", "fail", "crashBefore", "crashAfter"} ELSE {"ok", "error", "crashBefore"}
+\* "miss" (reads of Apply only): the controller's cached client has not seen the object yet and answers NotFound
+MissPcs == {"svc.g", "secS.g", "sa.g", "dep.g"}
+Outs(w, pc) == IF Nested \/ faults >= MaxFaults THEN {"ok"}
+               ELSE IF w THEN {"ok", "error", "fail", "crashBefore", "crashAfter"}
+               ELSE {"ok", "error", "crashBefore"} \cup (IF CacheMiss /\ pc \in MissPcs THEN {"miss"} ELSE {})
 
 \* the call made at the current pc: [k, o, w]
 CallOf(r) ==
@@ -321,7 +326,7 @@ Log(k, o, f) == IF Nested THEN UNCHANGED hist ELSE hist' = Append(hist, H("call"
 
 \* a top-level reconcile starts: Get of the revision
 Start == /\ cur = "none" /\ recs < MaxRecs
-         /\ \E r \in Revs, f \in Outs(FALSE) :
+         /\ \E r \in Revs, f \in Outs(FALSE, "rev") :
               /\ Log("get", "rev-" \o r, f)
               /\ faults' = (IF f = "ok" THEN faults ELSE faults + 1)
               /\ act' = [t |-> "call", who |-> r]
@@ -335,13 +340,14 @@ Step == /\ cur # "none"
         /\ LET r == cur
                c == CallOf(r)
                e == OkEffect(r)
-           IN \E f \in Outs(c.w) :
+           IN \E f \in Outs(c.w, loc[r].pc) :
                 /\ Log(c.k, c.o, f)
                 /\ faults' = (IF f = "ok" THEN faults ELSE faults + 1)
                 /\ act' = [t |-> "call", who |-> r]
                 /\ CASE f = "ok" -> obj' = e.obj /\ rev' = e.rev /\ Continue(r, e.l)
                      [] f = "crashAfter" -> obj' = e.obj /\ rev' = e.rev /\ End(r)
                      [] f = "error" -> UNCHANGED <<obj, rev>> /\ Continue(r, ErrLoc(loc[r]))
+                     [] f = "miss" -> UNCHANGED <<obj, rev>> /\ Continue(r, [e.l EXCEPT !.found = FALSE])
                      [] OTHER -> UNCHANGED <<obj, rev>> /\ End(r)
         /\ UNCHANGED <<drc, edits, nests>>
 
